@@ -48,6 +48,7 @@ theorem sylP_enteringDefault {P : L → Prop} (sh : Shared D L) (ev : KeyEvent) 
     | exact sylP_of_is h0 (sylIs_inputChar _ _)
     | exact sylP_of_is h0 (sylIs_chineseFallback _ _)
     | exact sylP_of_is h1 (sylIs_chineseFallback { sh with syl := (env.keyPress sh.syl ev).2 } ev)
+    | exact sylP_of_is h0 (sylIs_openSymbol env _)
     | sylp_leaf h0
     | sylp_leaf h1
 
